@@ -13,6 +13,7 @@ EXPLANATION = (
     "before, and nothing else opens the store path for writing; (4) CACHE-CLEAR — after a successful re-encryption in "
     "change_password every path to Ok clears the cache (or the cache lock is poisoned, which makes it unreadable); (5) "
     "SALT-SYMMETRY — the salt stored in the header is the salt given to the KDF, on both sides."
+    ' (6) STORE-DURABLE — every Ok of store_master_seed, and every fill of the key cache in it, lies behind the Ok edge of encrypt_and_store.'
 )
 NOT_DECIDED = "byte-level tampering (trusted: ChaCha20-Poly1305 authentication), Argon2 itself, fsync durability of the temp file"
 ASSUMPTIONS = ["ChaCha20Poly1305Cipher::decrypt fails on any altered ciphertext/nonce", "rename is atomic"]
